@@ -136,7 +136,15 @@ def generate(prop, rng):
         for c in loose:
             if rng.random() < 0.3:
                 dest.add(f"c{c}")
-        sc.update(request=request, src=sorted(src), dest=sorted(dest), corrupt={})
+        src_missing = []
+        if rng.random() < 0.3:
+            cand = sorted(l for l in src if l.startswith("c") and l not in dest)
+            if cand:
+                src_missing = rng.sample(cand, rng.randint(1, min(2, len(cand))))
+        sc.update(
+            request=request, src=sorted(src - set(src_missing)), dest=sorted(dest), corrupt={},
+            src_missing=sorted(src_missing),
+        )
     else:  # C11: open world
         cfg["verify"] = rng.random() < 0.4
         request = []
@@ -171,11 +179,34 @@ def generate(prop, rng):
             for lab in sorted(src):
                 if not lab.startswith("T") and rng.random() < 0.25:
                     corrupt[lab] = rng.choice(["append", "truncate", "rewrite"])
-        sc.update(request=request, src=sorted(src), dest=sorted(dest), corrupt=corrupt)
-    labs = sorted(set(sc["src"]) | set(sc["request"]))
+        indexed, vanished = [], []
+        if cfg["use_index"] and rng.random() < 0.6:
+            indexed = sorted(t for t in tlabels if t in dest and rng.random() < 0.8)
+            vanished = sorted(t for t in indexed if rng.random() < 0.5)
+            # identical trees share one oid: they vanish together
+            vanished = sorted(
+                {b for a in vanished for b in tlabels if trees[int(a[1:])] == trees[int(b[1:])]}
+            )
+            indexed = sorted(set(indexed) | set(vanished))
+            keep = set()
+            for t in tlabels:
+                if t in dest and t not in vanished:
+                    keep.update(children[t])
+            for t in vanished:
+                dest.discard(t)
+                for c in children[t]:
+                    if c not in keep and rng.random() < 0.7:
+                        dest.discard(c)
+        sc.update(request=request, src=sorted(src), dest=sorted(dest), corrupt=corrupt,
+                  indexed=indexed, vanished=vanished)
+    labs = sorted(set(sc["src"]) | set(sc["request"]) | set(sc.get("src_missing", [])))
     sc["fault_kinds"] = {lab: _fault_for(rng, cfg) for lab in labs}
     sc["subsets"] = {"mode": "enumerate", "cap": 40, "sample_seed": rng.randrange(10**9)}
     return sc
+
+
+def M_same_oid(trees, a, b):
+    return a != b and trees[int(a[1:])] == trees[int(b[1:])]
 
 
 # --------------------------------------------------------------------- model
@@ -301,6 +332,10 @@ class Run:
 
             self.w.mkdirs(self.w.p("tmp"))
             self.index = ObjectDBIndex(self.w.p("tmp"), "destidx")
+            for lab in sc.get("indexed", []):
+                # an earlier, fully successful push of this tree (transfer.py:127-138)
+                d = m.oid[lab]
+                self.index.update([d], list(m.children[d]))
         self.placed = []
         self.prefix = f"<rs>/rs/" if dk == "remote" else "dest/"
 
@@ -386,6 +421,7 @@ def _one(sc, ctx, m, idx, fail, req, req_star, src0, dest0, new):
     seam = ctx.seam
     cfg = sc["cfg"]
     fail_oids = {m.oid[lab] for lab in fail}
+    gone_oids = {m.oid[lab] for lab in sc.get("src_missing", [])}
     S0 = run.listing_src()
     D0 = run.listing_dest()
     multi_listed = {}
@@ -406,7 +442,8 @@ def _one(sc, ctx, m, idx, fail, req, req_star, src0, dest0, new):
                 shared = len(multi_listed.get(child, ())) >= 2 and child in fail_oids
                 ctx.violate(
                     "closure-during",
-                    "shared-file-failed" if shared else "other",
+                    "shared-file-failed" if shared else (
+                        "child-missing-both-sides" if child in gone_oids else "other"),
                     f"dir {m.lab(d)} present at dest without child {m.lab(child)} "
                     f"after {kind} {r2 or r1}; failing uploads={fail}",
                 )
@@ -428,7 +465,7 @@ def _one(sc, ctx, m, idx, fail, req, req_star, src0, dest0, new):
         T = {h.value for h in res.transferred}
         F = {h.value for h in res.failed}
         if prop == "C04":
-            _oracle_c04_after(ctx, m, req_star, D1, T, F, fail)
+            _oracle_c04_after(ctx, m, req_star, D1, T, F, fail, sc.get("src_missing", []))
             big = any(len(m.children.get(o, ())) >= 2 for o in new)
             nontrivial = bool(big and fired)
         else:
@@ -441,6 +478,8 @@ def _one(sc, ctx, m, idx, fail, req, req_star, src0, dest0, new):
             )
     # (iii) clean retry with the same arguments completes the destination
     if prop == "C04":
+        for lab in sc.get("src_missing", []):
+            run.w.raw_add("src", cfg["src_kind"], m.oid[lab], m.bytes[m.oid[lab]])
         try:
             run.transfer(req)
         except Exception as exc:  # noqa: BLE001
@@ -462,7 +501,8 @@ def _one(sc, ctx, m, idx, fail, req, req_star, src0, dest0, new):
     return nontrivial
 
 
-def _oracle_c04_after(ctx, m, req_star, D1, T, F, fail):
+def _oracle_c04_after(ctx, m, req_star, D1, T, F, fail, src_missing=()):
+    gone = {m.oid[l] for l in src_missing}
     for d in sorted(o for o in req_star if o in m.children):
         missing = [c for c in m.children[d] if c not in D1]
         if not missing:
@@ -470,13 +510,13 @@ def _oracle_c04_after(ctx, m, req_star, D1, T, F, fail):
         if d in D1 and model.check_object(d, D1[d]) is None:
             ctx.violate(
                 "closure-after",
-                "dir-present-child-absent",
+                "child-missing-both-sides" if set(missing) & gone else "dir-present-child-absent",
                 f"{m.lab(d)} present, children absent: {[m.lab(c) for c in missing]}; failing={fail}",
             )
         if d not in F and d not in D1:
             ctx.violate(
                 "withheld-not-failed",
-                "upload-failure",
+                "child-missing-both-sides" if set(missing) & gone else "upload-failure",
                 f"{m.lab(d)} withheld but not in failed (T has it: {d in T}); failing={fail}",
             )
 
@@ -803,13 +843,25 @@ def valid(sc):
         for t in req:
             if t.startswith("T"):
                 need |= ch[t]
-        if not need <= src:
+        gone = set(sc.get("src_missing", []))
+        if gone & (src | dest) or any(g.startswith("T") for g in gone):
+            return False
+        if not need <= (src | gone):
             return False
         if not set(sc["subsets"].get("sets", [[]])[0]) <= need if sc["subsets"]["mode"] == "only" else False:
             return False
     if sc["prop"] == "C11":
         if sc["cfg"]["use_index"] and not closed(dest):
             return False
+        idx, van = set(sc.get("indexed", [])), set(sc.get("vanished", []))
+        if (idx or van) and not sc["cfg"]["use_index"]:
+            return False
+        if not van <= idx or van & dest or not (idx - van) <= dest:
+            return False
+        for t in van:  # a vanished tree must not survive under another label
+            if any(M_same_oid(trees, t, b) for b in ch if b in dest):
+                return False
+
         if not sc["cfg"]["shallow"]:
             if any(t.startswith("T") and t not in src for t in sc["request"]):
                 return False
@@ -823,7 +875,8 @@ def valid(sc):
 
 
 def shrink_paths(sc):
-    out = [("list", ("ops",)), ("list", ("request",)), ("list", ("dest",)), ("list", ("src",))]
+    out = [("list", ("ops",)), ("list", ("request",)), ("list", ("dest",)), ("list", ("src",)),
+           ("list", ("src_missing",)), ("list", ("indexed",)), ("list", ("vanished",))]
     if sc.get("subsets", {}).get("mode") == "only":
         out.append(("list", ("subsets", "sets", 0)))
     for i in range(len(sc.get("trees", []))):
